@@ -209,6 +209,12 @@ OneLine(ev, args, tbl, aux, obs) ==
   /\ Chk("C16", "filter", (li.isf /\ ~PassesFilter(li.df, args.f)) => ev.ch = <<>>, ev, "filter")
   /\ Mark("C16", li.isf /\ a # 0 /\ args.f # <<>>, ev)
   /\ Chk("C12", "present", app => a \in k1, ev, "present")
+  \* C11: re-feeding the frame just applied to an existing row changes nothing (stamps aside)
+  /\ Chk("C11", "refeed",
+         (app /\ ev.ok /\ st.last # <<>> /\ st.last[1].slot = ev.slot /\ st.last[1].lines = ev.lines
+              /\ st.last[1].ok /\ a \in ToSet(st.last[1].k0) /\ ~Free(f))
+           => \A b \in ChSet(ev) : ChOf(ev, b).pre # <<>> /\ ChOf(ev, b).post # <<>>
+                                   /\ SameButStamps(ChOf(ev, b).pre[1], ChOf(ev, b).post[1]), ev, "refeed")
   /\ (IF Has(ev, "direct") THEN DirectChecks(ev, li, ev.direct[1]) ELSE TRUE)
   /\ (IF app /\ a \in k1 /\ ev.ok
       THEN FrameChecks(ev, f, a, pre, pt[a], Ctx(args, exists), AuxOf(aux, a), obs, tlo, thi)
